@@ -1351,7 +1351,7 @@ func (sg *schemaGenContext) buildAdditionalProperties() error {
 			sg.GenSchema.AdditionalProperties.Items.IsMapNullOverride = sg.GenSchema.AdditionalProperties.IsMapNullOverride
 			sg.GenSchema.AdditionalProperties.Items.ValueExpression = sg.GenSchema.ValueExpression + "[" + comprop.KeyVar + "]" + "[" + sg.GenSchema.AdditionalProperties.IndexVar + "]"
 			ap := sg.GenSchema.AdditionalProperties.Items
-			for ap != nil && ap.IsArray {
+			for ap != nil && ap.IsArray && ap.Items != nil {
 				ap.Items.IsMapNullOverride = ap.IsMapNullOverride
 				ap.Items.ValueExpression = ap.ValueExpression + "[" + ap.IndexVar + "]"
 				ap = ap.Items
